@@ -52,6 +52,8 @@ def _lk(x):
         return ("\0handle", x.t.i)
     if isinstance(x, LazySeq):
         return ("\0lazy", x.t.i)
+    if isinstance(x, EqAll):
+        return ("\0eqall",)
     if isinstance(x, tuple):
         return tuple(_lk(y) for y in x)
     if isinstance(x, (bool, int, float, complex)):
@@ -66,6 +68,8 @@ def _hk(x):
         return ("\0h", x.h)
     if isinstance(x, (Touchy, Handle, LazySeq)):
         return ("\0th", x.t.h)
+    if isinstance(x, EqAll):
+        return ("\0eqall",)
     if isinstance(x, tuple):
         return tuple(_hk(y) for y in x)
     return x
@@ -225,6 +229,38 @@ def _rebuild_handle(t):
     return Handle(t, unpickled=True)
 
 
+class EqAll:
+    """A wildcard value (like unittest.mock.ANY): equal to everything, unequal to nothing.  As an argument, a constant or a
+    default it is a value like any other - code that compares values with `==` / `!=` where it means `is` / `is not` trips."""
+
+    def __eq__(self, other):
+        return True
+
+    def __ne__(self, other):
+        return False
+
+    def __hash__(self):
+        return 7
+
+    def __repr__(self):
+        return "EQALL"
+
+    def __deepcopy__(self, memo):
+        return self
+
+    __copy__ = lambda self: self  # noqa: E731
+
+    def __reduce__(self):
+        return (_the_eqall, ())
+
+
+EQALL = EqAll()
+
+
+def _the_eqall():
+    return EQALL
+
+
 class LazySeq:
     """A sequence that MAKES its elements when they are asked for (an array whose items are fresh scalar objects, a row of a
     table): every `seq[i]` is a new object that dies as soon as nobody holds it - its address is free for the next one."""
@@ -286,7 +322,7 @@ for _op in "neg pos abs invert".split():
 
 def same(a, b):
     """Structural equality of containers, identity of interned terms."""
-    if type(a) is not type(b):
+    if type(a) is not type(b):  # (also keeps a wildcard on one side from being "equal" to anything)
         return False
     if isinstance(a, (tuple, list)):
         return len(a) == len(b) and all(same(x, y) for x, y in zip(a, b))
@@ -296,6 +332,8 @@ def same(a, b):
         return a is b
     if isinstance(a, (Touchy, Handle, LazySeq)):
         return a.t is b.t
+    if isinstance(a, EqAll):
+        return a is b
     return a == b
 
 
